@@ -37,6 +37,10 @@ def parseEv? (s : String) : Option Ev :=
   | ["closeCall"] => some .closeCall
   | ["closeCallInRecv"] => some .closeCallInRecv
   | ["connCallInRecv"] => some .connCallInRecv
+  | ["reconnStart"] => some .reconnStart
+  | ["reconnEnd"] => some .reconnEnd
+  | ["reconnCall"] => some .reconnCall
+  | ["reconnSleep", n] => n.toNat?.map .reconnSleep
   | ["writerClose", c] => c.toNat?.map Ev.writerClose
   | ["closeReturn"] => some .closeReturn
   | ["cfgWrite", c] => c.toNat?.map Ev.cfgWrite
